@@ -312,7 +312,7 @@ func (b *Broker) Attach(name string, wrap func(net.Conn) net.Conn) *Client {
 		s = wrap(sv)
 	}
 	b.Svc.VerifAttach(s)
-	return &Client{Name: name, C: cl, Server: s, nextID: 1, Wait: 30 * time.Second}
+	return &Client{Name: name, C: cl, Server: s, nextID: 1, Wait: 120 * time.Second}
 }
 
 func (c *Client) id() uint16 {
